@@ -468,8 +468,10 @@ type c02RepoCase struct {
 
 func c02Repository(r *core.Run) {
 	// one wildcard name per kind, so that rule sets are only rejected for ownership reasons
-	pool := allExprs(3, []string{"a", "b", "ab", ":x", "*r", `\:a`})
-	paths := allPaths(4, []string{"a", "b", "ab", "c", ":a", ""})
+	// ".c": a literal segment starting with a dot; request paths also carry "." segments and empty segments - heimdall
+	// matches the path as received, segment by segment (no dot-segment removal, no merging of slashes)
+	pool := allExprs(3, []string{"a", "b", "ab", ":x", "*r", `\:a`, ".c"})
+	paths := allPaths(4, []string{"a", "b", "ab", "c", ":a", "", ".c", "."})
 	methodSets := [][]string{nil, {"GET"}, {"POST"}, {"GET", "POST"}, {"ALL", "!GET"}}
 	methods := []string{"GET", "POST", "PUT"}
 	nApps := r.Pick(120, 3000)
